@@ -29,7 +29,7 @@ Theorem enables_reported :
   f_suppressed f (e_code e) (e_range e) = false ->
   exists ds, diagnose_file tr cfg f ks = Some ds /\
              In {| d_code := e_code e; d_name := code_name (e_code e); d_range := tr (e_range e);
-                   d_severity := get_severity cfg (e_code e); d_msg := e_msg e |} ds.
+                   d_severity := get_severity cfg (e_code e); d_msg := e_msg e; d_data := e_data e |} ds.
 Proof. exact Proofs.enables_reported. Qed.
 
 (** ... and for the checkers of today's source the CODES hypothesis holds: every code a checker's module
